@@ -3,7 +3,7 @@ MUTANTS = [
     {'name': 'DaCapo copied into the unfolded part', 'file': 'partitura/score.py', 'old': '                            ToCoda,\n                            DaCapo,\n                            DalSegno,', 'new': '                            ToCoda,\n                            DalSegno,', 'expect': 'EXCL'},
     {'name': 'copies not recorded in o_map', 'file': 'partitura/score.py', 'old': '                    o_map[o] = o_copy\n', 'new': '', 'expect': 'REFS'},
     {'name': 'grace links not registered', 'file': 'partitura/score.py', 'old': '        self._ref_attrs.extend(["grace_next", "grace_prev"])', 'new': '        self._ref_attrs.extend(["grace_next"])', 'expect': 'REFS'},
-    {'name': 'relink loop forgets prev', 'file': 'partitura/score.py', 'old': '            tp.next = tp_next\n            tp_next.prev = tp\n        return part', 'new': '            tp.next = tp_next\n        return part', 'expect': 'LINKS'},
+    {'name': 'relink loop forgets prev', 'file': 'partitura/score.py', 'old': '            tp.next = tp_next\n            tp_next.prev = tp\n\n        return part', 'new': '            tp.next = tp_next\n\n        return part', 'expect': 'LINKS'},
     {'name': 'minimal unfolding suffixes ids', 'file': 'partitura/score.py', 'old': '    unfolded_score = new_part_from_path(paths[0], score, update_ids=False)', 'new': '    unfolded_score = new_part_from_path(paths[0], score, update_ids=True)', 'expect': 'IDS'},
     {'name': 'ids always updated', 'file': 'partitura/score.py', 'old': '    if update_ids:\n        update_note_ids_after_unfolding(new_part)\n    return new_part', 'new': '    update_note_ids_after_unfolding(new_part)\n    return new_part', 'expect': 'IDS'},
     {'name': 'new_part_from_path marks the original', 'file': 'partitura/score.py', 'old': '    scorevariant = ScoreVariant(part)\n    for segment_id in path.path:', 'new': '    scorevariant = ScoreVariant(part)\n    part.part_name = part.part_name or "unfolded"\n    for segment_id in path.path:', 'expect': 'F1'},
